@@ -350,6 +350,16 @@ def gen_config(d, spec, ci, eff):
             opts["multiindex_strict"] = d.choice([True, "filter"])
         if d.p(0.3):
             opts["multiindex_ordered"] = False
+    # an option inherited from a base Config explicitly set back to None (= "not set") in this class
+    inherited = {}
+    for b in spec["classes"][ci]["bases"]:
+        bi = next((i for i, c in enumerate(spec["classes"]) if c["name"] == b), None) if isinstance(b, str) else b
+        bc = spec["classes"][bi].get("config") if isinstance(bi, int) and bi < len(spec["classes"]) else None
+        if bc:
+            inherited.update(bc.get("opts") or {})
+    for k in ("unique", "dtype", "name", "title", "description", "multiindex_name"):
+        if k in inherited and inherited[k] is not None and k not in opts and d.p(0.35):
+            opts[k] = None
     extras = {}
     if backend == "pandas" and d.p(0.28):
         for _ in range(d.int(1, 2)):
